@@ -10,7 +10,12 @@ package ice
 import (
 	"encoding/json"
 	"fmt"
+	"io"
 	"os"
+	"reflect"
+	"unsafe"
+
+	segment "github.com/blugelabs/bluge_segment_api"
 )
 
 type vpReplayVec struct {
@@ -120,3 +125,17 @@ var vpCancelPoll = -1
 
 func vpWriteSetBegin(roots []interface{}) {}
 func vpWriteSetEnd() []string             { return nil }
+
+// vpDataFromReaderAt builds a file-backed segment.Data over an arbitrary
+// io.ReaderAt (segment.NewDataFile only accepts *os.File).  Natively the
+// unexported fields are set through reflect/unsafe (test side only); the
+// engine constructs the same value directly.
+func vpDataFromReaderAt(r io.ReaderAt, sz int) *segment.Data {
+	d := &segment.Data{}
+	v := reflect.ValueOf(d).Elem()
+	rf := v.FieldByName("r")
+	reflect.NewAt(rf.Type(), unsafe.Pointer(rf.UnsafeAddr())).Elem().Set(reflect.ValueOf(&r).Elem())
+	sf := v.FieldByName("sz")
+	reflect.NewAt(sf.Type(), unsafe.Pointer(sf.UnsafeAddr())).Elem().SetInt(int64(sz))
+	return d
+}
